@@ -2917,7 +2917,9 @@ def make_ext_modules(I):
             if e.kind == "set":
                 return st.alloc(SetE([_plain_copy(st, x, what) for x in e.items]))
             if e.kind == "nd":
-                return st.alloc(NdE(e.shape, [_plain_copy(st, x, what) for x in e.data]))
+                c = e.detached()  # keeps the dtype mark and the (un)known memory layout
+                c.data = [_plain_copy(st, x, what) for x in e.data]
+                return st.alloc(c)
         if isinstance(v, ClassVal) and what == "pickle":
             # classes are pickled by reference (module-level name): the same class object comes back
             return v
